@@ -208,7 +208,7 @@ def run(chk):
             chk.ob(R3, "%s|%s" % (name, p), ok, loc=fn.loc(i),
                    detail="%s scans the stop bits from `%s` without first testing that granule's used bit: a stale or foreign "
                           "pointer inside a block is accepted" % (name, p), key="usedscan|%s|%s" % (name, p))
-    chk.floor(R3 + ":scans", nscan, 3)
+    chk.floor(R3 + ":scans", nscan, 1)
 
     # ---------------------------------------------------------------- C09.b' block pointer null-tested
     R4 = "R-BLOCK-NULL-TESTED"
@@ -371,30 +371,23 @@ def run(chk):
 
     # ---------------------------------------------------------------- C09.e roll-back in new_block
     R7 = "R-ROLLBACK"
-    chk.rule(R7, "in JitAllocator_new_block every failing exit that is not the propagated failure of the mapping call itself "
-                 "releases the mapping, and each release primitive sits under the same kUseDualMapping polarity as its acquire")
+    chk.rule(R7, "in JitAllocator_new_block every failing (or not provably successful) exit reached after a VirtMem mapping call succeeded "
+                 "releases the mapping on that path (path-sensitive), and each release primitive sits under the same kUseDualMapping "
+                 "polarity as its acquire")
+    from lib import rollback
     nb = need_fn("JitAllocator_new_block")
     acquire = {"alloc_dual_mapping": "release_dual_mapping", "alloc": "release"}
-
-    def elem_fx(eid, x):
-        if x["k"] in ("call", "mcall") and "VirtMem" in x.get("callee", "") and x.get("cn") in acquire.values():
-            return ((("released", x["cn"]), ("released-any",)), ())
-        return None
+    viol, stats = rollback.check(nb, lambda x: "VirtMem" in x.get("callee", "") and x.get("cn") in acquire,
+                                 lambda x: "VirtMem" in x.get("callee", "") and x.get("cn") in acquire.values())
+    chk.ob(R7, "new_block|failing-exits", not viol, loc=nb.loc(viol[0][0]) if viol else "%s:%d" % (UNIT, nb.line),
+           detail="failing exit of JitAllocator_new_block after the mapping was obtained does not release it (%d paths analysed)" % stats["paths"])
 
     def edge_fx(b, si, atom, holds):
         if "kUseDualMapping" in nb.text(atom):
             return [("dual", holds)]
         return ()
-    m = Must(nb, elem_fx, edge_fx)
-    nex = 0
-    for b, idx, r in nb.return_sites():
-        x = nb.e(r)
-        if x.get("cvn") == "kOk" or x.get("m") == "ASMJIT_PROPAGATE":
-            continue
-        nex += 1
-        st = m.before(r) or frozenset()
-        chk.ob(R7, "new_block|failing-exit#%d" % nex, ("released-any",) in st, loc=nb.loc(r),
-               detail="failing exit of JitAllocator_new_block after the mapping was obtained does not release it on every path")
+    m = Must(nb, None, edge_fx)
+    nex = 1
     pol = {}
     for i2, x in nb.calls(lambda x: "VirtMem" in x.get("callee", "") and (x.get("cn") in acquire or x.get("cn") in acquire.values())):
         st = m.before(i2) or frozenset()
